@@ -7,7 +7,7 @@ comparison is f(*args, ctx=C) versus g(*args).
 """
 PROPERTY = 'C09'
 LEVEL = 'translation_validation'
-BUDGET_S = {'quick': 900, 'thorough': 7200}
+BUDGET_S = {'quick': 3600, 'thorough': 14400}
 
 from . import tv, corpus
 
